@@ -285,6 +285,14 @@ func Gen(seed uint64, tier string) *Spec {
 			ops = []Op{herd}
 			n = 1
 		}
+		if g > 0 && r.Chance(1, 6) {
+			// requests for the same operation with different parameters present: state the library keeps per
+			// parameter or per operation is then touched by several callers at nearly the same place
+			ops[0] = genOp(simfw.NewRNG(r.Uint64()|2), s.Marker)
+			for tries := 0; tries < 12 && !(ops[0].Kind == "vreq" && ops[0].Method == "GET"); tries++ {
+				ops[0] = genOp(r, s.Marker)
+			}
+		}
 		// callers that hit the same cold state together are the interesting ones: sometimes duplicate an op across callers
 		if g > 0 && r.Chance(1, 3) {
 			ops[0] = s.Callers[r.Intn(g)][0]
